@@ -108,6 +108,17 @@ func checkC01(rt *rapid.T, c c01case) {
 	if err := safely(func() error { return blk.EncodeBlock(&clean, c.rev, in) }); err != nil {
 		rt.Fatalf("EncodeBlock(empty buffer): %v", err)
 	}
+	// (1a) history independence: encoding the very same column objects again gives the same bytes.
+	{
+		var again proto.Buffer
+		if err := safely(func() error { return blk.EncodeBlock(&again, c.rev, in) }); err != nil {
+			rt.Fatalf("second EncodeBlock of the same columns: %v", err)
+		}
+		if !bytes.Equal(again.Buf, clean.Buf) {
+			rt.Fatalf("encoding the same columns twice gives different bytes (%d then %d bytes, first difference at %d): the bytes depend on the column's history, not only on its contents; types %v",
+				len(clean.Buf), len(again.Buf), firstDiff(clean.Buf, again.Buf), typeNames(c.cols))
+		}
+	}
 	// (1) buffer independence: same columns (fresh objects) into a pre-filled buffer.
 	if len(c.prefix) > 0 {
 		_, in2 := libInput(c.cols, c.bulk)
